@@ -108,6 +108,13 @@ def pool(rnd):
         lambda: ([[S("mfail"), rnd.randrange(2)]], "call"),
         lambda: ([[S("progn"), [S("inc")], [S("error"), Q(S("op-fail")), 1]]], "call"),
         lambda: ([[S("if"), [S("inc")], [S("boom")], 1]], "call"),
+        # the Go panic reached through env.FunCall (no eval of its own between the builtin and the panic)
+        lambda: ([[S("inc")], [S("funcall"), S("boom")]], "load"),
+        lambda: ([[S("apply"), Q(S("boom")), [S("list"), [S("inc")]]]], "load"),
+        lambda: ([[S("map"), Q(S("list")), S("boom"), [S("list"), [S("inc")], 2]]], "load"),
+        lambda: ([[S("foldl"), S("boom"), [S("inc")], Q([1, 2])], STATE], "load"),
+        lambda: ([[S("ignore-errors"), [S("all?"), S("boom"), Q([1])]], [S("ignore-errors"), [S("stable-sort"), S("boom"), [S("list"), 2, 1]]], STATE], "load"),
+        lambda: ([[S("handler-bind"), [[S("x"), S("boom")]], [S("inc")], [S("error"), Q(S("x")), 1]]], "load"),
         # the Go panic raised by a host MACRO and by a host SPECIAL OPERATOR (their own frames are on the stack then)
         lambda: ([[S("inc")], [S("boom-macro")]], "load"),
         lambda: ([[S("list"), [S("inc")], [S("boom-macro"), 1], [S("inc")]]], "load"),
